@@ -75,12 +75,22 @@ Check (C12_back_to_back_not_mixed : forall ip_mtu bufsize id0 nsocks ops,
   f4_hdr + 8 <= ip_mtu ->
   let '(st, out) := eg_run ip_mtu (eg_init bufsize id0 nsocks) ops in
   exists done cur,
-    filter p_is_fragment out = concat done ++ cur /\
-    Forall (fun t => exists ident P, In P (ops_payloads ops) /\ train_ok ip_mtu ident 0 t P) done /\
+    filter frame_is_fragment out = concat done ++ cur /\
+    Forall (fun t => exists ident d, In d (ops_payloads ops) /\
+                       ltrain_ok ip_mtu ident (fst d) 0 t (snd d)) done /\
     ((fr_finished (eg_fr st) = true /\ cur = []) \/
-     (exists P, In P (ops_payloads ops) /\ fr_finished (eg_fr st) = false /\
-        forall fuel, (length P <= fuel)%nat ->
-          train_ok ip_mtu (fr_ident (eg_fr st)) 0 (cur ++ f4_drain fuel ip_mtu (eg_fr st)) P))).
+     (exists d, In d (ops_payloads ops) /\ fr_finished (eg_fr st) = false /\
+        eg_hw st = fst d /\ Forall (fun f => fst f = fst d) cur /\
+        forall fuel, (length (snd d) <= fuel)%nat ->
+          train_ok ip_mtu (fr_ident (eg_fr st)) 0
+                   (map snd cur ++ f4_drain fuel ip_mtu (eg_fr st)) (snd d)))).
+
+Check (C12_dropped_packet_changes_nothing : forall ip_mtu ident fr hwst d,
+  let '(fr', hw', out, r) := eg_dispatch_ip ip_mtu ident fr hwst d in
+  Forall (fun f => fst f = fst d) out /\
+  (r <> DipFragStarted -> fr' = fr /\ hw' = hwst) /\
+  (r = DipFragStarted -> hw' = fst d) /\
+  (fr_finished fr = false -> r <> DipFragStarted)).
 
 Check (C12_train_ok_means : forall ip_mtu ident frs off data,
   train_ok ip_mtu ident off frs data ->
@@ -97,15 +107,15 @@ Check (C12_busy_fragmenter_not_overwritten : forall ip_mtu ident fr P,
   filter p_is_fragment (snd (fst (f4_dispatch_ip ip_mtu ident fr P))) = []).
 
 Check (C12_socket_datagram_kept_while_busy : forall ip_mtu B,
-  f4_hdr + 8 <= ip_mtu -> forall socks fr id b,
+  f4_hdr + 8 <= ip_mtu -> forall socks fr hwst id b,
   zlen (fr_buffer fr) = B ->
-  let '(fr', _, _, socks', out, _) := eg_socket_egress ip_mtu fr id b socks in
+  let '(fr', _, _, _, socks', out, _) := eg_socket_egress ip_mtu fr hwst id b socks in
   zlen (fr_buffer fr') = B /\ Forall2 (dequeued_ok ip_mtu B out) socks socks').
 
 Check (C12_pending_fragment_first : forall ip_mtu st b P off,
   f4_hdr + 8 <= ip_mtu -> fr_progress (eg_fr st) P off -> bud_has b = true ->
   let '(_, _, out, _) := eg_poll_egress ip_mtu st b in
-  exists rest, out = snd (f4_dispatch_ipv4_frag ip_mtu (eg_fr st)) :: rest).
+  exists rest, out = (eg_hw st, snd (f4_dispatch_ipv4_frag ip_mtu (eg_fr st))) :: rest).
 
 Check (C12_example_three_fragments :
   map (fun p => (p_offset p, p_mf p, zlen (p_payload p)))
@@ -113,10 +123,17 @@ Check (C12_example_three_fragments :
   [(0, true, 552); (552, true, 552); (1104, false, 104)]).
 
 Check (C12_example_two_datagrams_back_to_back :
-  map (fun p => (p_ident p, p_offset p, p_mf p, zlen (p_payload p), hd 0 (p_payload p)))
+  map (fun f => (fst f, p_ident (snd f), p_offset (snd f), p_mf (snd f), zlen (p_payload (snd f)),
+                 hd 0 (p_payload (snd f))))
       (snd (eg_run 576 (eg_init cfg_FRAGMENTATION_BUFFER_SIZE 7 1) c12_d8_ops)) =
-  [(7, 0, true, 552, 17); (7, 552, true, 552, 17); (7, 1104, false, 104, 17);
-   (8, 0, true, 552, 34); (8, 552, true, 552, 34); (8, 1104, false, 104, 34)]).
+  [(1, 7, 0, true, 552, 17); (1, 7, 552, true, 552, 17); (1, 7, 1104, false, 104, 17);
+   (1, 8, 0, true, 552, 34); (1, 8, 552, true, 552, 34); (1, 8, 1104, false, 104, 34)]).
+
+Check (C12_example_two_neighbours :
+  map (fun f => (fst f, p_ident (snd f), p_offset (snd f), p_mf (snd f), zlen (p_payload (snd f)),
+                 hd 0 (p_payload (snd f))))
+      (snd (eg_run 562 (eg_init cfg_FRAGMENTATION_BUFFER_SIZE 7 1) c12_two_neighbours_ops)) =
+  [(1, 7, 0, true, 536, 17); (1, 7, 536, true, 536, 17); (1, 7, 1072, false, 336, 17)]).
 
 Check (C12_example_permuted_duplicate :
   map (fun f => (fi_offset f, fi_mf f, zlen (fi_payload f))) c12_ex_frags =
